@@ -255,6 +255,121 @@ def dist_cases(rng, tier):
     return cases
 
 
+# ====================================================================== generators: exact guard boundaries, call histories
+
+def _dyadic(x):
+    d = F(x).denominator
+    return d & (d - 1) == 0
+
+
+def tn93_terms_exact(cols):
+    """the three log arguments of TN93 for a list of (x, y) columns, in exact arithmetic and in the order of
+    operations of the source; second component: every intermediate is a dyadic rational, i.e. the float
+    computation is exact whatever the summation order, so 'exactly 0' is 0.0 for the implementation too"""
+    cnt = {}
+    for c in cols:
+        cnt[c] = cnt.get(c, 0) + 1
+    total = len(cols)
+    f = {c: F(sum(v for (x, y), v in cnt.items() if x == c) + sum(v for (x, y), v in cnt.items() if y == c), 2 * total) for c in CANON}
+    fR, pR, fY, pY = f["A"] + f["G"], f["A"] * f["G"], f["C"] + f["T"], f["C"] * f["T"]
+    if pR == 0 or pY == 0:
+        return None
+    pur = F(cnt.get(("A", "G"), 0) + cnt.get(("G", "A"), 0), total)
+    pyr = F(cnt.get(("C", "T"), 0) + cnt.get(("T", "C"), 0), total)
+    tv = F(sum(v for (x, y), v in cnt.items() if x != y), total) - pur - pyr
+    c1, c2 = 2 * pR / fR, 2 * pY / fY
+    inter = list(f.values()) + [fR, pR, fY, pY, pur, pyr, tv, c1, c2, pur / c1, tv / (2 * fR), pyr / c2, tv / (2 * fY),
+                                2 * fR * fY, tv / (2 * fR * fY)]
+    terms = (1 - pur / c1 - tv / (2 * fR), 1 - pyr / c2 - tv / (2 * fY), 1 - tv / (2 * fR * fY))
+    return terms, all(_dyadic(x) for x in inter)
+
+
+def boundary_cases(rng, tier):
+    """sequence pairs that sit EXACTLY on a guard of a closed-form estimator (a log argument equal to 0, p = 3/4),
+    found by exact rational arithmetic, plus their one-column neighbours on either side"""
+    types = [(a, b) for a in CANON for b in CANON]
+    ident = [(c, c) for c in CANON]
+    profiles = {0: [("A", "G"), ("G", "A")], 1: [("C", "T"), ("T", "C")],
+                2: [(a, b) for a in "AG" for b in "CT"] + [(b, a) for a in "AG" for b in "CT"]}
+    pairs = []
+    want = 2 if tier == "quick" else 6
+    for target in (0, 1, 2):
+        got = 0
+        for _ in range(8000):
+            n = rng.choice((4, 8, 8, 16, 16))
+            cols = [rng.choice(ident) if rng.random() < 0.5 else (rng.choice(profiles[target]) if rng.random() < 0.8 else rng.choice(types))
+                    for _ in range(n)]
+            r = tn93_terms_exact(cols)
+            if r and r[1] and r[0][target] == 0 and all(t > 0 for i, t in enumerate(r[0]) if i != target):
+                pairs.append((f"tn93-term{target + 1}", cols))
+                got += 1
+                if got >= want:
+                    break
+    got = 0
+    for _ in range(8000):          # several arguments zero at once
+        cols = [rng.choice(types) for _ in range(rng.choice((4, 8, 16)))]
+        r = tn93_terms_exact(cols)
+        if r and r[1] and min(r[0]) == 0 and sum(1 for t in r[0] if t == 0) >= 2:
+            pairs.append(("tn93-multi", cols))
+            got += 1
+            if got >= want:
+                break
+    # the example of the brief: all base frequencies 1/4, transversions in exactly half of the columns
+    pairs.append(("tn93-term3", [("A", "A"), ("C", "C"), ("G", "G"), ("T", "T"), ("A", "C"), ("C", "A"), ("G", "T"), ("T", "G")]))
+    for n in ((4, 8, 16) if tier == "quick" else (4, 8, 12, 16, 20, 24, 40)):      # JC69: p = 3/4 exactly
+        cols = [rng.choice(ident) for _ in range(n // 4)]
+        cols += [rng.choice([t for t in types if t[0] != t[1]]) for _ in range(n - n // 4)]
+        pairs.append(("jc69-p34", cols))
+    cases = []
+    for tag, cols in pairs:
+        variants = [cols]
+        k = rng.randrange(len(cols))
+        variants.append(cols[:k] + [rng.choice(ident)] + cols[k + 1:])                                   # one column towards identity
+        variants.append(cols[:k] + [rng.choice([t for t in types if t[0] != t[1]])] + cols[k + 1:])     # one column towards saturation
+        for v in variants:
+            v = list(v)
+            rng.shuffle(v)
+            s1, s2 = "".join(x for x, _ in v), "".join(y for _, y in v)
+            for calc in ("tn93", "jc69"):
+                cases.append(dist_case(["a", "b"], [s1, s2], calc, "boundary:" + tag))
+    return cases
+
+
+def history_cases(rng, tier):
+    """one calculator object / one app instance over 2-3 alignments (with and without identical sequences,
+    same or different names); sequences of tree builders on one DistanceMatrix object"""
+    cases = []
+    nh = 10 if tier == "quick" else 80
+    for k in range(nh):
+        calc = CALCS[k % len(CALCS)]
+        steps = []
+        for s in range(rng.choice([2, 3])):
+            nseq = rng.choice([3, 4])
+            length = rng.choice([6, 12, 30])
+            seqs = rand_alignment(rng, nseq, length, rng.choice([0, 0, 0.1]), rng.choice([0.2, 0.5]))
+            dup = (s == 0) if k % 2 == 0 else (s == 1)        # identical sequences first and not later, or the other way round
+            if dup:
+                seqs[-1] = seqs[0]
+                if nseq == 4 and rng.random() < 0.5:
+                    seqs[2] = seqs[1]
+            else:
+                while len(set(seqs)) < len(seqs):
+                    seqs = rand_alignment(rng, nseq, length, 0, 0.5)
+            names = [f"s{i}" for i in range(nseq)] if rng.random() < 0.5 else [f"{'xyzw'[s]}{i}" for i in range(nseq)]
+            steps.append(dict(names=names, seqs=seqs))
+        cases.append(dict(kind="dist_history", block="history", calc="logdet" if calc == "logdet_notk" else calc, calc_id=calc,
+                          tk=(calc != "logdet_notk"), steps=steps))
+    op_seqs = [["upgma", "nj"], ["nj", "upgma"], ["quick_tree", "quick_tree"], ["upgma", "upgma"], ["upgma", "quick_tree", "nj"],
+               ["nj", "nj", "upgma", "upgma"]]
+    nd = 12 if tier == "quick" else 90
+    pool = {n: list(all_rooted(n)) for n in (3, 4, 5, 6)}
+    for k in range(nd):
+        n = rng.choice([3, 4, 5, 6])
+        base = upgma_case_from_tree(rng, n, rng.choice(pool[n]), "dm-history")
+        cases.append(dict(base, kind="dm_history", ops=op_seqs[k % len(op_seqs)]))
+    return cases
+
+
 # ====================================================================== rendering for Coq
 
 def qlit(x) -> str:
@@ -500,6 +615,11 @@ def check_dist(rep, c, ir, mr, stats):
             stats["spec_violations"] += 1
     if any(x not in (0.0, 0) for x in ir["diag"]):
         rep.violation("dist:nonzero-diagonal", dict(case=c, observed_impl=ir["diag"], broken="zero diagonal"))
+    if ir.get("dm_names") is not None and ir["dm_names"] != sorted(c["names"]):
+        rep.violation("dist:names", dict(case=c, expected_by_spec=sorted(c["names"]), observed_impl=ir["dm_names"],
+                                         broken="the distance matrix is not over exactly the sequences of the alignment"))
+    if ir.get("input_unchanged") is False:
+        rep.violation("dist:input-modified", dict(case=c, observed_impl="alignment differs after the call", broken="inputs are not modified"))
     # --- python kernel vs numba kernel vs plain counting
     kk = 0
     for a in range(n):
@@ -527,7 +647,7 @@ def check_dist(rep, c, ir, mr, stats):
             mcounts, mres = mr[1][kk]
             if mcounts != d["counts"]:
                 dis.append(dict(key="dist:counts", case=c, pair=[order[a], order[b]], observed_impl=d["counts"], model_output=mcounts))
-            mv = model_cell_value(mres) if mres is not None else None
+            mv = "nan" if mres == "nan" else (model_cell_value(mres) if mres is not None else None)
             if c["calc_id"] == "pdist" and mres is not None and mres != "nan":
                 mv = float(F(mres[1][0], mres[1][1]))
             iv = d["dist"] if c["calc_id"] != "pdist" else d["p"]
@@ -602,6 +722,8 @@ def check_nj(rep, c, ir, mr, mown, stats):
     if "exc" in ir:
         rep.violation(f"nj:raised:{'additive' if c.get('additive') else 'arbitrary'}", dict(case=c, observed_impl=ir, broken="nj raised on a valid distance matrix"))
         return dis
+    if ir.get("input_unchanged") is False:
+        rep.violation("nj:input-modified", dict(case=c, observed_impl="distances differ after the call", broken="inputs are not modified"))
     if c.get("additive"):
         stats["nontrivial"].add(json.dumps([c["names"], c["matrix"]]))
         check_nj_tree(rep, c, ir["tree"], "nj", stats)
@@ -671,6 +793,8 @@ def check_upgma(rep, c, ir, mr, stats):
         return dis
     names = c["names"]
     n = c["n"]
+    if ir.get("input_unchanged") is False:
+        rep.violation("upgma:input-modified", dict(case=c, observed_impl="distances differ after the call", broken="inputs are not modified"))
     if c.get("ultrametric"):
         stats["nontrivial"].add(json.dumps([c["names"], c["matrix"]]))
         dm = tree_dist_map(ir["tree"]["dists"])
@@ -718,6 +842,86 @@ def check_upgma(rep, c, ir, mr, stats):
             dis.append(dict(key="upgma:depths", case=c, observed_impl=idep.get(names[a]), model_output=[names[a], float(F(q[0], q[1]))]))
             break
     return dis
+
+
+def check_dist_history(rep, c, ir, stats):
+    if "exc" in ir:
+        rep.violation(f"dist:history:{c['calc_id']}:raised", dict(case=c, observed_impl=ir, broken="a re-used calculator / app raised on a valid alignment"))
+        return
+    for si, (step, obs) in enumerate(zip(c["steps"], ir["steps"])):
+        order = obs["order"]
+        pos = {nm: i for i, nm in enumerate(step["names"])}
+        seqs = [step["seqs"][pos[nm]] for nm in order]
+        pairs = [(a, b) for a in range(len(order)) for b in range(len(order)) if a != b]
+        if obs.get("input_unchanged") is False:
+            rep.violation("dist:input-modified", dict(case=c, step=si, broken="inputs are not modified"))
+        for mode in ("reused_calc", "reused_app", "fresh"):
+            r = obs.get(mode)
+            if r is None:
+                continue
+            if "error" in r:
+                # the app refuses alignments with an incalculable pair (NotCompleted); that is its documented behaviour
+                if not any(oracle_pair(c["calc_id"], seqs[a], seqs[b])[0] != "val" for a, b in pairs):
+                    rep.violation(f"dist:history:{mode}:failed", dict(case=c, step=si, observed_impl=r, broken="app failed although every pair is defined"))
+                continue
+            stats["evaluations"] += len(pairs)
+            if r["dm_names"] != sorted(step["names"]):
+                rep.violation(f"dist:history:{mode}:names", dict(case=c, step=si, expected_by_spec=sorted(step["names"]), observed_impl=r["dm_names"],
+                                                                 broken="the result of a re-used calculator / app is not over exactly the sequences of the alignment it was given"))
+                stats["spec_violations"] += 1
+                continue
+            for k, (a, b) in enumerate(pairs):
+                o = oracle_pair(c["calc_id"], seqs[a], seqs[b])
+                iv = r["cells"][k]
+                iv = None if iv == "absent" else iv
+                fv = obs["fresh"]["cells"][k]
+                fv = None if fv == "absent" else fv
+                if o[0] != "skip":
+                    exp = o[1] if o[0] == "val" else None
+                    if not close(iv, exp):
+                        rep.violation(f"dist:history:{mode}:value", dict(case=c, step=si, pair=[order[a], order[b]],
+                                      expected_by_spec=exp if o[0] == "val" else f"undefined ({o[1]})", observed_impl=iv, fresh_calculator=fv,
+                                      broken="result of a calculator / app that was used before differs from the published formula on this alignment"))
+                        stats["spec_violations"] += 1
+                if not close(iv, fv, 1e-12):
+                    rep.violation(f"dist:history:{mode}:state", dict(case=c, step=si, pair=[order[a], order[b]], expected_by_spec=fv, observed_impl=iv,
+                                  broken="result depends on what the same object computed before (differs from a fresh calculator)"))
+                    stats["spec_violations"] += 1
+    stats["nontrivial"].add(json.dumps(c["steps"]))
+
+
+def check_dm_history(rep, c, ir, stats):
+    if "exc" in ir:
+        rep.violation("dm-history:raised", dict(case=c, observed_impl=ir, broken="runner failed"))
+        return
+    names, n = c["names"], c["n"]
+    stats["nontrivial"].add(json.dumps([c["names"], c["matrix"], c["ops"]]))
+    for si, obs in enumerate(ir["steps"]):
+        stats["evaluations"] += 1
+        op = obs["op"]
+        if not obs["input_unchanged"]:
+            rep.violation(f"dm-history:{op}:input-modified", dict(case=c, step=si, ops=c["ops"], observed_impl="the DistanceMatrix holds other values / names after the call",
+                                                                  broken="inputs are not modified"))
+            stats["spec_violations"] += 1
+        if "exc" in obs:
+            rep.violation(f"dm-history:{op}:raised", dict(case=c, step=si, ops=c["ops"], observed_impl=obs, broken="tree builder raised on a valid distance matrix"))
+            stats["spec_violations"] += 1
+            continue
+        dm = tree_dist_map(obs["tree"]["dists"])
+        bad = None
+        for a in range(n):
+            for b in range(a + 1, n):
+                got = dm.get(frozenset((names[a], names[b])))
+                if got is None or abs(got - c["matrix"][a][b]) > TOL:
+                    bad = (names[a], names[b], c["matrix"][a][b], got)
+        if bad:
+            rep.violation(f"dm-history:{op}:distances", dict(case=c, step=si, ops=c["ops"], expected_by_spec=f"d({bad[0]},{bad[1]}) = {bad[2]}", observed_impl=bad[3],
+                          broken="tree built from a DistanceMatrix object that was used by an earlier call does not reproduce the (ultrametric, hence additive) input"))
+            stats["spec_violations"] += 1
+        elif op == "upgma" and any(abs(dp - c["root_height"]) > TOL for _, dp in obs["tree"]["depths"]):
+            rep.violation("dm-history:upgma:heights", dict(case=c, step=si, ops=c["ops"], expected_by_spec=c["root_height"], observed_impl=obs["tree"]["depths"],
+                                                           broken="root-to-tip depth differs from the generating tree's root height"))
+            stats["spec_violations"] += 1
 
 
 # ====================================================================== cases per tier
@@ -841,13 +1045,20 @@ def run(tier: str, seed: int) -> int:
         "numpy.linalg.det, numpy.log, float64 rounding, numba compilation: sampled by the correspondence (tolerance 1e-9)",
         "numpy.argsort tie order among exactly equal NJ scores is not modelled (the check verifies the joined pair has the minimal exact score)",
     ])
-    rep.assumptions += ["tree inputs: additive / ultrametric matrices from trees with positive dyadic branch lengths",
+    rep.assumptions += ["clauses checked on every call besides the values: the result is over exactly the input's names, the "
+                        "input object (alignment, dict, DistanceMatrix) is unchanged afterwards, and the result of a re-used "
+                        "calculator / app / DistanceMatrix equals that of a fresh one",
+                        "guard boundaries: sequence pairs on which a log argument of TN93 is exactly 0 (each of the three, and "
+                        "several at once) and JC69 pairs with p = 3/4, found by exact rational search restricted to dyadic "
+                        "intermediates (so the float computation is exact too), with their one-column neighbours; paralinear / "
+                        "LogDet pairs whose exact determinant is 0 are NOT asserted (numpy.linalg.det decides their sign by rounding)",
+                        "tree inputs: additive / ultrametric matrices from trees with positive dyadic branch lengths",
                         "nucleotide (DNA) alignments for the calculators"]
     proof_broken = bool(pr["problems"])
     variant = dup_rule_variant()
     if variant == "unknown":
         rep.notes.append("text of the duplicate rule in _PairwiseDistance.run not recognised; model variant = pinned source")
-    cases = dist_cases(rng, tier) + tree_cases(rng, tier)
+    cases = dist_cases(rng, tier) + boundary_cases(rng, tier) + tree_cases(rng, tier) + history_cases(rng, tier)
     try:
         impl = core.run_impl_sharded("c15_impl.py", cases)
     except core.CheckError as e:
@@ -890,8 +1101,12 @@ def run(tier: str, seed: int) -> int:
             disagreements += check_dist(rep, c, ir, mr, stats)
         elif c["kind"] == "nj":
             disagreements += check_nj(rep, c, ir, mr, mo, stats)
-        else:
+        elif c["kind"] == "upgma":
             disagreements += check_upgma(rep, c, ir, mr, stats)
+        elif c["kind"] == "dist_history":
+            check_dist_history(rep, c, ir, stats)
+        else:
+            check_dm_history(rep, c, ir, stats)
     import os
     if os.environ.get("C15_DEBUG"):
         for d in disagreements[:40]:
@@ -903,7 +1118,8 @@ def run(tier: str, seed: int) -> int:
     sample = next(c for c in cases if c["kind"] == "nj" and c["n"] == 5)
     rep.coverage.update(
         evaluations=stats["evaluations"], distinct_nontrivial=len(stats["nontrivial"]),
-        rule="one evaluation = one ordered sequence pair under one estimator, or one nj / upgma run; non-trivial = distinct "
+        rule="one evaluation = one ordered sequence pair under one estimator (fresh or re-used calculator / app), or one nj / "
+             "upgma / quick_tree call (incl. calls in a sequence on one DistanceMatrix object); non-trivial = distinct "
              "(estimator, sequence pair) with a defined non-zero expected distance, or distinct additive / ultrametric matrix "
              "generated from a tree with >= 3 tips",
         samples=[dict(kind="nj", names=sample["names"], matrix=sample["matrix"], gen_edges=sample["gen_edges"], gen_lens=sample["gen_lens"]),
@@ -941,8 +1157,12 @@ def replay(path: str) -> int:
         check_dist(rep, c, ir, None, stats)
     elif c["kind"] == "nj":
         check_nj(rep, c, ir, None, None, stats)
-    else:
+    elif c["kind"] == "upgma":
         check_upgma(rep, c, ir, None, stats)
+    elif c["kind"] == "dist_history":
+        check_dist_history(rep, c, ir, stats)
+    else:
+        check_dm_history(rep, c, ir, stats)
     print("impl  :", json.dumps(ir)[:1500])
     for key, r in seen:
         print("oracle:", key, "| expected", r.get("expected_by_spec"), "| observed", r.get("observed_impl"), "|", r.get("pair", ""))
